@@ -86,7 +86,18 @@ impl Q32E2 {
 
     #[inline]
     pub fn neg(&mut self) {
-        self.0 = self.0.wrapping_neg();
+        let mut u = self.to_bits();
+        let mut j = u.iter_mut().rev();
+        while let Some(w) = j.next() {
+            if *w > 0 {
+                *w = w.wrapping_neg();
+                for v in j {
+                    *v = !*v;
+                }
+                break;
+            }
+        }
+        *self = Self::from_bits(u);
     }
 
     #[inline]
